@@ -116,15 +116,15 @@ theorem print_injective_bytes (a b : Expr) (ha : Canon ff pf a) (hb : Canon ff p
 
 theorem lex_quoted_string (v : Bytes) :
     lexAll (quoteString v) true =
-      .items [⟨.tString, (quoteString v).length, quoteString v⟩, ⟨.tError, 0, []⟩] :=
+      .items [⟨.tString, (quoteString v).length, quoteString v⟩, errItem] :=
   Props.C17b.lex_quoted_string lexTableOK v
 
 theorem lex_int (v : Int) :
-    lexAll (fmtInt v) true = .items [⟨.tInteger, (fmtInt v).length, fmtInt v⟩, ⟨.tError, 0, []⟩] :=
+    lexAll (fmtInt v) true = .items [⟨.tInteger, (fmtInt v).length, fmtInt v⟩, errItem] :=
   Props.C17b.lex_int lexTableOK v
 
 theorem lex_float (val : Bytes) (h : floatSpelling val = true) :
-    lexAll val true = .items [⟨.tFloat, val.length, val⟩, ⟨.tError, 0, []⟩] :=
+    lexAll val true = .items [⟨.tFloat, val.length, val⟩, errItem] :=
   Props.C17b.lex_float lexTableOK val h
 
 end
@@ -149,7 +149,7 @@ example : ∃ items, lexAll [36, 195, 169] true = .items items ∧ items.map Ite
 def exDot : Expr := .bin .add 0 (.dataRef 0 [97] (.cons (.key 0 false []) .nil)) (.int 0 1)
 example : printExpr ff0 exDot = [36, 97, 46, 32, 43, 32, 49] ∧ NamesOk ff0 exDot = true := by decide
 example : lexAll [36, 97, 46, 32, 43, 32, 49] true =
-    .items [⟨.tDollarIdent, 2, [36, 97]⟩, ⟨.tDotIdent, 3, [46]⟩, ⟨.tAdd, 5, [43]⟩, ⟨.tInteger, 7, [49]⟩, ⟨.tError, 0, []⟩] := by
+    .items [⟨.tDollarIdent, 2, [36, 97]⟩, ⟨.tDotIdent, 3, [46]⟩, ⟨.tAdd, 5, [43]⟩, ⟨.tInteger, 7, [49]⟩, errItem] := by
   have h := lex_print_items ff0 exDot (by decide)
   exact h
 
@@ -175,36 +175,36 @@ example : floatSpelling [49, 46, 53] = true ∧ floatSpelling [45, 48, 46, 50, 5
 /-- why the keyword condition is needed: the text `sp` lexes as the command `{sp}`, not as an identifier
     (each kernel evaluation of the lexer model costs ≈ 20 s: a rune that is NOT a letter is looked up in
     the whole generated `unicode.Letter` table — hence only a handful of evaluated examples) -/
-example : lexAll [115, 112] true = .items [⟨.tSpace, 2, [115, 112]⟩, ⟨.tError, 0, []⟩] := by decide +kernel
+example : lexAll [115, 112] true = .items [⟨.tSpace, 2, [115, 112]⟩, ⟨.tError, 0, [clsTag]⟩] := by decide +kernel
 
 /-! ### non-vacuity: the lexer model evaluated on printed texts -/
 
 /-- `(1 + 2) * 3` -/
 example : lexAll [40, 49, 32, 43, 32, 50, 41, 32, 42, 32, 51] true =
     .items [⟨.tLeftParen, 1, [40]⟩, ⟨.tInteger, 2, [49]⟩, ⟨.tAdd, 4, [43]⟩, ⟨.tInteger, 6, [50]⟩, ⟨.tRightParen, 7, [41]⟩,
-      ⟨.tMul, 9, [42]⟩, ⟨.tInteger, 11, [51]⟩, ⟨.tError, 0, []⟩] := by decide +kernel
+      ⟨.tMul, 9, [42]⟩, ⟨.tInteger, 11, [51]⟩, ⟨.tError, 0, [clsTag]⟩] := by decide +kernel
 
 /-- `-(5)`: a Negate token, not the sign of a number -/
 example : lexAll [45, 40, 53, 41] true =
     .items [⟨.tNegate, 1, [45]⟩, ⟨.tLeftParen, 2, [40]⟩, ⟨.tInteger, 3, [53]⟩, ⟨.tRightParen, 4, [41]⟩,
-      ⟨.tError, 0, []⟩] := by decide +kernel
+      ⟨.tError, 0, [clsTag]⟩] := by decide +kernel
 
 /-- `$a ? [1] : $b.c` -/
 example : lexAll [36, 97, 32, 63, 32, 91, 49, 93, 32, 58, 32, 36, 98, 46, 99] true =
     .items [⟨.tDollarIdent, 2, [36, 97]⟩, ⟨.tTernIf, 4, [63]⟩, ⟨.tLeftBracket, 6, [91]⟩, ⟨.tInteger, 7, [49]⟩,
       ⟨.tRightBracket, 8, [93]⟩, ⟨.tColon, 10, [58]⟩, ⟨.tDollarIdent, 13, [36, 98]⟩, ⟨.tDotIdent, 15, [46, 99]⟩,
-      ⟨.tError, 0, []⟩] := by decide +kernel
+      ⟨.tError, 0, [clsTag]⟩] := by decide +kernel
 
 /-- `not ($x and $y)` -/
 example : lexAll [110, 111, 116, 32, 40, 36, 120, 32, 97, 110, 100, 32, 36, 121, 41] true =
     .items [⟨.tNot, 3, [110, 111, 116]⟩, ⟨.tLeftParen, 5, [40]⟩, ⟨.tDollarIdent, 7, [36, 120]⟩, ⟨.tAnd, 11, [97, 110, 100]⟩,
-      ⟨.tDollarIdent, 14, [36, 121]⟩, ⟨.tRightParen, 15, [41]⟩, ⟨.tError, 0, []⟩] := by decide +kernel
+      ⟨.tDollarIdent, 14, [36, 121]⟩, ⟨.tRightParen, 15, [41]⟩, ⟨.tError, 0, [clsTag]⟩] := by decide +kernel
 
 /-- `1 - -2.5e-07` (binary minus, then the sign of a float) and `$a ?: 'x\'y'`: by the theorem
     `lexAll_pieces` on the piece lists (evaluating `emitAll`, not the lexer) -/
 example : lexAll [49, 32, 45, 32, 45, 50, 46, 53, 101, 45, 48, 55] true =
     .items [⟨.tInteger, 1, [49]⟩, ⟨.tSub, 3, [45]⟩, ⟨.tFloat, 12, [45, 50, 46, 53, 101, 45, 48, 55]⟩,
-      ⟨.tError, 0, []⟩] := by
+      errItem] := by
   have h := lexAll_pieces lexTableOK
     [.tok ⟨.tInteger, [49]⟩, .sp, .tok (tOp .sub), .sp, .tok ⟨.tFloat, [45, 50, 46, 53, 101, 45, 48, 55]⟩]
     ⟨tok_int 1 (closer_numEnd (closer_sp _)), tok_op lexTableOK .sub _,
@@ -212,7 +212,7 @@ example : lexAll [49, 32, 45, 32, 45, 50, 46, 53, 101, 45, 48, 55] true =
   exact h
 example : lexAll [36, 97, 32, 63, 58, 32, 39, 120, 92, 39, 121, 39] true =
     .items [⟨.tDollarIdent, 2, [36, 97]⟩, ⟨.tElvis, 5, [63, 58]⟩, ⟨.tString, 12, [39, 120, 92, 39, 121, 39]⟩,
-      ⟨.tError, 0, []⟩] := by
+      errItem] := by
   have h := lexAll_pieces lexTableOK
     [.tok ⟨.tDollarIdent, [36, 97]⟩, .sp, .tok (tOp .elvis), .sp, .tok (tString [39, 120, 92, 39, 121, 39])]
     ⟨tok_dollar (k := [97]) (by decide) (closer_wordEnd (closer_sp _)), tok_op lexTableOK .elvis _,
@@ -224,7 +224,7 @@ example : lexAll [36, 97, 32, 63, 58, 32, 39, 120, 92, 39, 121, 39] true =
 /-- the items of `(1 + 2) * 3` as the theorem gives them (`emitAll`), evaluated -/
 example : lexAll (printExpr ff0 ex1) true =
     .items [⟨.tLeftParen, 1, [40]⟩, ⟨.tInteger, 2, [49]⟩, ⟨.tAdd, 4, [43]⟩, ⟨.tInteger, 6, [50]⟩, ⟨.tRightParen, 7, [41]⟩,
-      ⟨.tMul, 9, [42]⟩, ⟨.tInteger, 11, [51]⟩, ⟨.tError, 0, []⟩] := by
+      ⟨.tMul, 9, [42]⟩, ⟨.tInteger, 11, [51]⟩, errItem] := by
   rw [lex_print_items ff0 ex1 names_examples.1]; decide
 
 example : ∃ items e', lexAll (printExpr ff0 ex4) true = .items items ∧ parseExprEntry pf0 items = .ok e' ∧
